@@ -212,9 +212,13 @@ def check_C12(pid, tier, seed, t0):
     # name; the listed (group, owner) pairs are known findings, anything else is reported
     listed = [f for f in known.get("findings", []) if f.get("property") == pid]
     known_groups = {}
+    derived_d16 = 0
     for s, r in sorted(shadow_seen.items()):
         g, owner = s.split(" in ", 1)
         hit = [f for f in listed if f.get("group_name") == g and owner in f.get("owners", [])]
+        if g.startswith("NoZzTwin"):
+            derived_d16 += 1   # an instance of D16 the derivation built on purpose (two components, one group name)
+            continue
         if hit:
             known_groups.setdefault(g, set()).add(owner)
         else:
@@ -263,6 +267,7 @@ def check_C12(pid, tier, seed, t0):
         "schemas": len(allrecs), "schemas_generator_accepts": len(allrecs) - impl_fail, "schemas_rejected": impl_fail,
         "declaration_records_compared": sum(len(impl_records(r["impl"])[1]) for r in allrecs),
         "packages_compiled_and_driven": len(drive_dirs),
+        "derived_schemas_with_two_definitions_of_one_group_name": derived_d16,
         "evaluations": len(allrecs) + len(rrecs) + len(drive_dirs),
         "distinct_nontrivial": len(set(r["case"] for r in allrecs if impl_records(r["impl"])[0] == "OK")),
         "rule": "one evaluation per schema run through cmd/fixgen and the model, per driven package and per reference comparison; "
